@@ -113,7 +113,7 @@ func (w *World) execSnapOp(ctx context.Context, toks []string) (bool, error) {
 		}
 		var s iface.Store
 		var err error
-		opts := &iface.CreateDBOptions{}
+		opts := w.storeOptions()
 		switch w.kind {
 		case "kv":
 			s, err = pr.odb.KeyValue(ctx, w.dbAddr, opts)
